@@ -85,31 +85,7 @@ PopControls(sc) ==      \* a single-line control scope ends with the statement i
     THEN PopControls(SubSeq(sc, 1, Len(sc) - 1)) ELSE sc
 Indent(sc) == Len(sc) - 1
 
-(***************************************************************************)
-(* File prologue                                                           *)
-(***************************************************************************)
-Init == /\ prog = <<HeaderLine>> /\ phase = "after_header" /\ nfun = 0 /\ body = 0 /\ open = <<>> /\ elseOK = 0
-        /\ ndecl = 0 /\ viol = NoViol /\ scope = << [name |-> "GlobalScope", multi |-> FALSE] >>
-
-IncludeLine(sys, w) == Line("include", "IsPreprocessorStatement",
-                            IF sys THEN <<L("#include <", 10), Slot("inc", w, 0), L(".h>", 3)>>
-                            ELSE <<L("#include \"", 10), Slot("inc", w, 0), L(".h\"", 3)>>)
-DefineLine(i, w, val) == Line("define", "IsPreprocessorStatement", <<L("#define ", 8), Slot("m", w, i)>> \o <<L(" ", 1)>> \o val)
-DefVals == {<<N2>>, <<N4>>, <<L("-", 1), N1>>, <<S5>>, <<C3>>, <<Slot("m", 5, 9)>>}
-
-Prologue ==
-    /\ phase = "after_header" /\ FileKind = "c"
-    /\ \E ninc \in (IF Sim THEN Pick(0..3) ELSE {0, 1}), ndef \in (IF Sim THEN Pick(0..3) ELSE {0, 1}) :
-        \E incs \in Pick([1..ninc -> {IncludeLine(sy, w) : sy \in BOOLEAN, w \in {4, 6, 9}}]) :
-        \E dws \in Pick([1..ndef -> {3, 6}]), dvs \in Pick([1..ndef -> DefVals]) :
-          LET defs == [i \in 1..ndef |-> DefineLine(i, dws[i], dvs[i])] IN
-            EmitAll(<<Empty>> \o incs \o (IF ninc > 0 THEN <<Empty>> ELSE <<>>) \o defs \o (IF ndef > 0 THEN <<Empty>> ELSE <<>>))
-    /\ phase' = "toplevel"
-    /\ UNCHANGED <<nfun, body, open, elseOK, ndecl, viol, scope>>
-
-(***************************************************************************)
-(* Function definitions                                                    *)
-(***************************************************************************)
+(* ---- parameters ------------------------------------------------------------ *)
 RetTypes == {<<L("void", 4)>>, <<L("int", 3)>>, <<L("char", 4)>>, <<L("static int", 10)>>, <<L("static void", 11)>>,
              <<L("t_list", 6)>>, <<L("size_t", 6)>>, <<L("unsigned int", 12)>>}
 Param(t, st, w, n) == <<TyItem(t), L(" ", 1)>> \o Stars(st) \o <<Slot("p", w, n)>>
@@ -122,10 +98,125 @@ ParamLists == IF Sim
                    \cup UNION {{JoinParams([i \in 1..n |-> Param(ts[i], sts[i], ws[i], i)], 1)
                                   : ts \in Pick([1..n -> TypeIdx]), sts \in Pick([1..n -> 0..2]), ws \in Pick([1..n -> NameW])}
                               : n \in Pick(1..4)}
-              ELSE {<< L("void", 4) >>, Param(1, 0, 1, 1), Param(2, 1, 3, 1) \o <<L(", ", 2)>> \o Param(1, 0, 1, 2),
-                    Param(8, 1, 3, 1) \o <<L(", ", 2)>> \o Param(1, 0, 1, 2) \o <<L(", ", 2)>> \o Param(1, 0, 1, 3)
-                        \o <<L(", ", 2)>> \o Param(2, 2, 3, 4)}
+              ELSE {<< L("void", 4) >>, Param(2, 1, 3, 1) \o <<L(", ", 2)>> \o Param(1, 0, 1, 2)}
 
+
+(***************************************************************************)
+(* File prologue                                                           *)
+(***************************************************************************)
+Init == /\ prog = <<HeaderLine>> /\ phase = "after_header" /\ nfun = 0 /\ body = 0 /\ open = <<>> /\ elseOK = 0
+        /\ ndecl = 0 /\ viol = NoViol /\ scope = << [name |-> "GlobalScope", multi |-> FALSE] >>
+
+IncludeLine(sys, w) == Line("include", "IsPreprocessorStatement",
+                            IF sys THEN <<L("#include <", 10), Slot("inc", w, 0), L(".h>", 3)>>
+                            ELSE <<L("#include \"", 10), Slot("inc", w, 0), L(".h\"", 3)>>)
+DefineLine(i, w, val) == Line("define", "IsPreprocessorStatement", <<L("#define ", 8), Slot("m", w, i)>> \o <<L(" ", 1)>> \o val)
+DefVals == {<<N2>>, <<N4>>, <<L("-", 1), N1>>, <<S5>>, <<C3>>, <<Slot("m", 5, 9)>>}
+
+(* ---- file-level declarations: ONE alignment column for all globals/typedef names of the file, ONE for all     *)
+(* prototypes (the engine keeps one vars_alignment and one func_alignment in the global scope)                *)
+GQual == << [x |-> "static ", w |-> 7], [x |-> "const ", w |-> 6], [x |-> "static const ", w |-> 13], [x |-> "", w |-> 0] >>
+GlobalLine(q, t, wMax, st, w, i, init) ==
+    Line("global", "IsVarDeclaration",
+         (IF GQual[q].w > 0 THEN <<L(GQual[q].x, GQual[q].w)>> ELSE <<>>) \o <<TyItem(t)>>
+         \o AlignTabs(wMax, GQual[q].w + Types[t].w) \o Stars(st) \o <<Slot("g", w, i)>>
+         \o (IF init THEN <<L(" = ", 3), N2>> ELSE <<>>) \o <<L(";", 1)>>)
+ProtoLine(static, t, wMax, st, w, i, params) ==
+    Line("proto", "IsFuncPrototype",
+         (IF static THEN <<L("static ", 7)>> ELSE <<>>) \o <<TyItem(t)>>
+         \o AlignTabs(wMax, (IF static THEN 7 ELSE 0) + Types[t].w) \o Stars(st) \o <<Slot("f", w, 20 + i), L("(", 1)>>
+         \o params \o <<L(");", 2)>>)
+MaxOf(f, n) == IF n = 0 THEN 0 ELSE f[CHOOSE i \in 1..n : \A j \in 1..n : f[j] <= f[i]]
+FileComments == {Line("comment", "IsComment", <<L("/* ", 3), Slot("txt", 12, 0), L(" */", 3)>>),
+                 Line("comment", "IsComment", <<L("// ", 3), Slot("txt", 20, 0)>>),
+                 Line("comment", "IsComment3", <<L("/*", 2)>>) }      \* a three-line block comment, rendered from a template
+
+Globals(n, qs, ts, sts, ws, inits) ==
+    LET wd == [i \in 1..n |-> GQual[qs[i]].w + Types[ts[i]].w]
+    IN [i \in 1..n |-> GlobalLine(qs[i], ts[i], MaxOf(wd, n), sts[i], ws[i], i, inits[i])]
+Protos(n, ss, ts, sts, ws, pls) ==
+    LET wd == [i \in 1..n |-> (IF ss[i] THEN 7 ELSE 0) + Types[ts[i]].w]
+    IN [i \in 1..n |-> ProtoLine(ss[i], ts[i], MaxOf(wd, n), sts[i], ws[i], i, pls[i])]
+
+Prologue ==
+    /\ phase = "after_header" /\ FileKind = "c"
+    /\ \E ninc \in (IF Sim THEN Pick(0..3) ELSE {1}), ndef \in (IF Sim THEN Pick(0..3) ELSE {0}) :
+        \E incs \in Pick([1..ninc -> {IncludeLine(sy, w) : sy \in BOOLEAN, w \in {4, 6, 9}}]) :
+        \E dws \in Pick([1..ndef -> {3, 6}]), dvs \in Pick([1..ndef -> DefVals]) :
+          LET defs == [i \in 1..ndef |-> DefineLine(i, dws[i], dvs[i])] IN
+        \E ng \in (IF Sim THEN Pick(0..3) ELSE {0}), np \in (IF Sim THEN Pick(0..3) ELSE {0}) :
+        \E gq \in Pick([1..ng -> 1..4]), gt \in Pick([1..ng -> TypeIdx]), gs \in Pick([1..ng -> 0..1]), gw \in Pick([1..ng -> {3, 6}]),
+           gi \in Pick([1..ng -> BOOLEAN]) :
+        \E pss \in Pick([1..np -> BOOLEAN]), pt \in Pick([1..np -> TypeIdx]), pst \in Pick([1..np -> 0..1]), pw \in Pick([1..np -> {4, 7}]),
+           ppl \in Pick([1..np -> ParamLists]) :
+            LET gl == Globals(ng, gq, gt, gs, gw, gi)
+                pl == Protos(np, pss, pt, pst, pw, ppl)
+            IN /\ \A i \in 1..np : LineWidth(pl[i]) <= 80
+               /\ EmitAll(<<Empty>> \o incs \o (IF ninc > 0 THEN <<Empty>> ELSE <<>>) \o defs \o (IF ndef > 0 THEN <<Empty>> ELSE <<>>)
+                          \o gl \o (IF ng > 0 THEN <<Empty>> ELSE <<>>) \o pl \o (IF np > 0 THEN <<Empty>> ELSE <<>>))
+    /\ phase' = "toplevel"
+    /\ UNCHANGED <<nfun, body, open, elseOK, ndecl, viol, scope>>
+
+(***************************************************************************)
+(* Header files: guard, indented directives, type blocks, prototypes       *)
+(***************************************************************************)
+HIncludeLine(sys, w) == Line("include", "IsPreprocessorStatement",
+                             IF sys THEN <<L("# include <", 11), Slot("inc", w, 0), L(".h>", 3)>>
+                             ELSE <<L("# include \"", 11), Slot("inc", w, 0), L(".h\"", 3)>>)
+HDefineLine(i, w, val) == Line("define", "IsPreprocessorStatement", <<L("# define ", 9), Slot("m", w, i)>> \o <<L(" ", 1)>> \o val)
+GuardOpen == << Line("ifndef", "IsPreprocessorStatement", <<L("#ifndef ", 8), Slot("guard", 0, 0)>>),
+                Line("guarddef", "IsPreprocessorStatement", <<L("# define ", 9), Slot("guard", 0, 0)>>) >>
+GuardClose == << Line("endif", "IsPreprocessorStatement", <<L("#endif", 6)>>) >>
+
+(* typedef struct / union: fields aligned on one column; the typedef name after the closing brace either on the *)
+(* same column (as in the Norm's example) or after a single tab                                                *)
+FieldLine(t, wMax, st, w, i) ==
+    Line("field", "IsVarDeclaration", <<TAB1, TyItem(t)>> \o AlignTabs(wMax, Types[t].w) \o Stars(st) \o <<Slot("fld", w, i), L(";", 1)>>)
+StructBlock(kw, tagcls, b, n, ts, sts, ws, alignName) ==
+    LET wd == [i \in 1..n |-> Types[ts[i]].w]
+        wMax == MaxOf(wd, n)
+    IN << Line("utype", "IsUserDefinedType", <<L(kw, IF kw = "typedef struct " THEN 15 ELSE 14), Slot(tagcls, 6, b)>>),
+          Line("lbrace", "IsBlockStart", <<L("{", 1)>>) >>
+       \o [i \in 1..n |-> FieldLine(ts[i], wMax, sts[i], ws[i], i)]
+       \o << Line("rbrace", "IsBlockEnd",
+                  <<L("}", 1)>> \o (IF alignName THEN Tabs(StopOf(wMax) + 2) ELSE <<TAB1>>) \o <<Slot("tname", 6, b), L(";", 1)>>) >>
+EnumBlock(b, n, vals) ==
+    << Line("utype", "IsUserDefinedType", <<L("typedef enum ", 13), Slot("etag", 6, b)>>),
+       Line("lbrace", "IsBlockStart", <<L("{", 1)>>) >>
+    \o [i \in 1..n |-> Line("enumval", "IsEnumVarDecl",
+                              <<TAB1, Slot("econst", 5, 10 * b + i)>> \o (IF vals[i] THEN <<L(" = ", 3), N1>> ELSE <<>>)
+                              \o (IF i < n THEN <<L(",", 1)>> ELSE <<>>))]
+    \o << Line("rbrace", "IsBlockEnd", <<L("}", 1), TAB1, Slot("tname", 6, b), L(";", 1)>>) >>
+
+HPrologue ==
+    /\ phase = "after_header" /\ FileKind = "h"
+    /\ \E ninc \in (IF Sim THEN Pick(0..3) ELSE {0, 1}), ndef \in (IF Sim THEN Pick(0..3) ELSE {0, 1}),
+          nblk \in (IF Sim THEN Pick(0..3) ELSE {0, 1, 2}), np \in (IF Sim THEN Pick(0..4) ELSE {0, 2}) :
+        \E incs \in Pick([1..ninc -> {HIncludeLine(sy, w) : sy \in BOOLEAN, w \in {4, 6, 9}}]) :
+        \E dws \in Pick([1..ndef -> {3, 6}]), dvs \in Pick([1..ndef -> DefVals]) :
+        \E bk \in (IF Sim THEN Pick([1..nblk -> {"struct", "union", "enum"}]) ELSE [1..nblk -> {"struct", "enum"}]),
+           bn \in Pick([1..nblk -> 1..4]), ba \in Pick([1..nblk -> BOOLEAN]) :
+        \E ft \in Pick([1..nblk -> [1..4 -> TypeIdx]]), fs \in Pick([1..nblk -> [1..4 -> 0..2]]), fw \in Pick([1..nblk -> [1..4 -> NameW]]),
+           ev \in Pick([1..nblk -> [1..4 -> BOOLEAN]]) :
+        \E pss \in Pick([1..np -> {FALSE}]), pt \in Pick([1..np -> TypeIdx]), pst \in Pick([1..np -> 0..1]), pw \in Pick([1..np -> {4, 7}]),
+           ppl \in Pick([1..np -> ParamLists]) :
+            LET defs == [i \in 1..ndef |-> HDefineLine(i, dws[i], dvs[i])]
+                blk(b) == IF bk[b] = "enum" THEN EnumBlock(b, bn[b], ev[b])
+                          ELSE StructBlock(IF bk[b] = "struct" THEN "typedef struct " ELSE "typedef union ",
+                                           IF bk[b] = "struct" THEN "stag" ELSE "utag", b, bn[b], ft[b], fs[b], fw[b], ba[b])
+                RECURSIVE Blocks(_)
+                Blocks(b) == IF b > nblk THEN <<>> ELSE blk(b) \o <<Empty>> \o Blocks(b + 1)
+                pl == Protos(np, pss, pt, pst, pw, ppl)
+            IN /\ \A i \in 1..np : LineWidth(pl[i]) <= 80
+               /\ EmitAll(<<Empty>> \o GuardOpen \o <<Empty>>
+                          \o incs \o (IF ninc > 0 THEN <<Empty>> ELSE <<>>) \o defs \o (IF ndef > 0 THEN <<Empty>> ELSE <<>>)
+                          \o Blocks(1) \o pl \o (IF np > 0 THEN <<Empty>> ELSE <<>>) \o GuardClose)
+    /\ phase' = "done" /\ nfun' = 0
+    /\ UNCHANGED <<body, open, elseOK, ndecl, viol, scope>>
+
+(***************************************************************************)
+(* Function definitions                                                    *)
+(***************************************************************************)
 FuncHead(rt, st, w, params) ==
     Line("funchead", "IsFuncDeclaration", rt \o <<TAB1>> \o Stars(st) \o <<Slot("f", w, nfun + 1), L("(", 1)>> \o params \o <<L(")", 1)>>)
 
@@ -134,7 +225,8 @@ StartFunc ==
     /\ \E rt \in Pick(RetTypes), st \in Pick(0..1), w \in Pick({4, 7, 10}), ps \in (IF Sim THEN Pick(ParamLists) ELSE ParamLists) :
         LET h == FuncHead(rt, st, w, ps) IN
         /\ LineWidth(h) <= 80
-        /\ EmitAll((IF nfun > 0 THEN <<Empty>> ELSE <<>>) \o <<h, Line("lbrace", "IsBlockStart", <<L("{", 1)>>)>>)
+        /\ \E cm \in (IF Sim THEN Pick({<<>>, <<>>, <<>>} \cup {<<c>> : c \in FileComments}) ELSE {<<>>}) :
+             EmitAll((IF nfun > 0 THEN <<Empty>> ELSE <<>>) \o cm \o <<h, Line("lbrace", "IsBlockStart", <<L("{", 1)>>)>>)
     /\ phase' = "decls" /\ nfun' = nfun + 1 /\ body' = 0 /\ open' = <<>> /\ elseOK' = 0 /\ ndecl' = 0
     /\ scope' = PushScope("Function", TRUE)
     /\ UNCHANGED viol
@@ -169,7 +261,7 @@ SimpleStmts ==
     \cup {[st |-> "IsFunctionCall", items |-> c \o <<L(";", 1)>>] : c \in Pick(CallTable)}
     \cup {[st |-> "IsExpressionStatement", items |-> <<L("return (", 8)>> \o e \o <<L(");", 2)>>] : e \in ExprChoice}
     \cup {[st |-> "IsExpressionStatement", items |-> <<L("return ;", 8)>>]}
-    \cup {[st |-> "IsCast", items |-> <<L("(void)", 6), V3, L(";", 1)>>]}
+    \cup {[st |-> "IsExpressionStatement", items |-> <<L("(void)", 6), V3, L(";", 1)>>]}
 LoopStmts == {[st |-> "IsExpressionStatement", items |-> <<L("break ;", 7)>>],
               [st |-> "IsExpressionStatement", items |-> <<L("continue ;", 10)>>]}
 InLoop == \E i \in DOMAIN open : open[i].kind = "while"
@@ -251,7 +343,7 @@ Finish ==
 (* never paint into a corner: every open braced block must still be closable within MaxBody *)
 Feasible == phase = "body" => body + Reserve <= MaxBody
 
-Next == \/ Prologue \/ StartFunc \/ Decls \/ Simple \/ Control \/ CloseBlock \/ EndFunc \/ Finish
+Next == \/ Prologue \/ HPrologue \/ StartFunc \/ Decls \/ Simple \/ Control \/ CloseBlock \/ EndFunc \/ Finish
 Spec == Init /\ [][Next]_nvars
 
 (***************************************************************************)
